@@ -136,7 +136,9 @@ theorem FieldsNOBT.set {fs : Fields} {k : String} {v : Ty}
 theorem mergeOne_nobt {c e first fs fs' name field}
     (h : mergeOne c e first fs name field = .ok fs') (hfs : FieldsNOBT fs) (hf : field.noOpt = true) :
     FieldsNOBT fs' := by
-  rcases mergeOne_cases h with ⟨_, h2⟩ | ⟨orig, hg, h2 | ⟨oi, ho, h2⟩ | ⟨hno, h2⟩⟩
+  rcases mergeOne_cases h with ⟨_, h2⟩ | ⟨orig, hg, h2 | ⟨oi, ho, h2⟩ | ⟨hno, h2⟩ | ⟨_, _, h2⟩⟩
+  rotate_left 4
+  · subst h2; exact hfs.set (.inl hf)
   · subst h2
     apply hfs.set
     split
